@@ -4,6 +4,7 @@ package binutils
 
 import (
 	"debug/elf"
+	"encoding/json"
 	"strconv"
 	"strings"
 )
@@ -132,4 +133,114 @@ func VerifC13A2LWithNM(base uint64, nmOut string, hasNM bool, addr uint64, frame
 		funcs = append(funcs, f.Func)
 	}
 	return funcs, nil
+}
+
+// ---- conversations with a simulated symbolizer tool (one pipe, many requests) ----
+
+// VerifC13ToolFrame is one frame a simulated tool prints for a link address. For addr2line the
+// tool prints Func (or "??") and FileLine verbatim; for llvm-symbolizer File and Line go to JSON.
+type VerifC13ToolFrame struct {
+	Func, FileLine string
+	Line           int
+}
+
+// verifC13Sim is a lineReaderWriter backed by a simulated tool process: every written line is
+// answered (appended to the pipe) the way the real tool answers it; readLine pops the pipe.
+type verifC13Sim struct {
+	answer func(req string) []string
+	pipe   []string
+}
+
+func (s *verifC13Sim) write(req string) error { s.pipe = append(s.pipe, s.answer(req)...); return nil }
+func (s *verifC13Sim) readLine() (string, error) {
+	if len(s.pipe) == 0 {
+		return "", errVerifC13EOF
+	}
+	l := s.pipe[0]
+	s.pipe = s.pipe[1:]
+	return l, nil
+}
+func (s *verifC13Sim) close() {}
+
+// VerifC13Conversation asks ONE addr2Liner (kind "a2l", optionally with an nm table attached as
+// fileAddr2Line.init attaches it) or ONE llvmSymbolizer (kind "llvm", code mode) about every
+// address in order, over one simulated pipe. table maps LINK addresses to the frames the tool
+// knows; an address not in the table is unknown to the tool ("??" / "??:0", resp. an empty symbol).
+func VerifC13Conversation(kind string, base uint64, table map[uint64][]VerifC13ToolFrame, nmOut string, hasNM bool, addrs []uint64) (out [][]VerifC13ToolFrame, errs []error, leftover int) {
+	switch kind {
+	case "a2l":
+		sim := &verifC13Sim{answer: func(req string) []string {
+			x, err := strconv.ParseUint(req, 16, 64)
+			if err != nil {
+				return []string{"addr2line: bad request " + req}
+			}
+			ans := []string{"0x" + strconv.FormatUint(x, 16)}
+			fs := table[x]
+			if len(fs) == 0 {
+				return append(ans, "??", "??:0")
+			}
+			for _, f := range fs {
+				ans = append(ans, f.Func, f.FileLine)
+			}
+			return ans
+		}}
+		a := &addr2Liner{rw: sim, base: base}
+		if hasNM {
+			if nm, err := parseAddr2LinerNM(base, strings.NewReader(nmOut)); err == nil {
+				a.nm = nm
+			}
+		}
+		for _, ad := range addrs {
+			st, err := a.addrInfo(ad)
+			var fs []VerifC13ToolFrame
+			for _, f := range st {
+				fs = append(fs, VerifC13ToolFrame{f.Func, f.File, f.Line})
+			}
+			out = append(out, fs)
+			errs = append(errs, err)
+		}
+		return out, errs, len(sim.pipe)
+	case "llvm":
+		sim := &verifC13Sim{answer: func(req string) []string {
+			if !strings.HasPrefix(req, "m 0x") {
+				return []string{"{}"}
+			}
+			x, err := strconv.ParseUint(req[4:], 16, 64)
+			if err != nil {
+				return []string{"{}"}
+			}
+			type sym struct {
+				Line         int    `json:"Line"`
+				Column       int    `json:"Column"`
+				FunctionName string `json:"FunctionName"`
+				FileName     string `json:"FileName"`
+				StartLine    int    `json:"StartLine"`
+			}
+			ans := struct {
+				Address    string `json:"Address"`
+				ModuleName string `json:"ModuleName"`
+				Symbol     []sym  `json:"Symbol"`
+			}{Address: "0x" + strconv.FormatUint(x, 16), ModuleName: "m"}
+			for _, f := range table[x] {
+				ans.Symbol = append(ans.Symbol, sym{Line: f.Line, FunctionName: f.Func, FileName: f.FileLine})
+			}
+			if len(ans.Symbol) == 0 { // what llvm-symbolizer prints for an unknown address
+				ans.Symbol = []sym{{}}
+			}
+			b, _ := json.Marshal(ans)
+			return []string{string(b)}
+		}}
+		l := &llvmSymbolizer{filename: "m", rw: sim, base: base}
+		for _, ad := range addrs {
+			st, err := l.addrInfo(ad)
+			var fs []VerifC13ToolFrame
+			for _, f := range st {
+				fs = append(fs, VerifC13ToolFrame{f.Func, f.File, f.Line})
+			}
+			out = append(out, fs)
+			errs = append(errs, err)
+		}
+		return out, errs, len(sim.pipe)
+	}
+	return nil, nil, 0
 }
